@@ -27,7 +27,7 @@ from mc.ref import money
 
 PROPERTY = "C12"
 LEVEL = "exploration"
-RULE = ("cases = every subset of 1..K transactions (K=3 quick, 4 thorough) of a 23-transaction alphabet x {without views, with two views}; each case "
+RULE = ("cases = every subset of 1..K transactions (K=3 quick, 4 thorough) of a 25-transaction alphabet x {without views, with two views}; each case "
         "renders 11 outputs (2 HTML modes, JSON x3, Markdown x3 verbosities, text summary, views summary, plus the separate data file). "
         "non-trivial = subsets with >=2 merchants whose derived ids collide, or with a description containing markup / placeholder text, or mixing "
         ">=2 money buckets; subsets are distinct by construction")
@@ -67,6 +67,9 @@ ALPHA = [
     ("Fld", "falsy fields", 12.25, [], D(2025, 1, 25), FOOD, {"z": 0, "f": False, "e": "", "when": dt.date(2025, 1, 25)}),
     ("Span", "prime charge", 40.0, [], D(2025, 1, 24), FOOD, None),
     ("Span", "big refund", -100.0, [], D(2025, 2, 24), BILLS, None),
+    # amounts with three decimals (currencies with a 1/1000 unit, fuel prices): they are analysed, listed and summed as they are
+    ("Kwd", "three decimals", 4.504, [], D(2025, 1, 26), FOOD, None),
+    ("Kwd", "three decimals again", 7.003, [], D(2025, 2, 26), FOOD, None),
 ]
 VIEWS = "[All]\nfilter: true\n\n[Food Only]\ndescription: food & \"drink\" </script>\nfilter: category == \"Food\"\n"
 
